@@ -732,6 +732,86 @@ def shard_read_then_edit(acc, shard, nshards, params):
                family="read-then-edit[%d fibers x %d reads x %d edits]" % (len(specs), len(F_READS), len(edits)))
 
 
+
+# the same differential oracle on tensors: (reader, then follow-up mutation, then observe) equals (mutation, then observe)
+
+def _tobserve(T):
+    obs = [("snap", repr(snap(T)))]
+    for name in ("getShape", "getters", "str-repr-format", "countValues", "isEmpty", "iterate", "iterActive", "uncompress",
+                 "format-footprint", "fiber2dict"):
+        try:
+            v = _READERS[2][name](T, T)
+            obs.append((name, repr(_val_repr(v))))
+        except (Exception, SystemExit) as ex:
+            obs.append((name, "EXC:" + type(ex).__name__))
+    return obs
+
+
+def _val_repr(v):
+    if isinstance(v, (list, tuple)):
+        return [_val_repr(x) for x in v]
+    if isinstance(v, Fiber):
+        return ("F", rawtree(v))
+    if isinstance(v, Payload):
+        return ("P", v.value)
+    if isinstance(v, CoordPayload):
+        return ("CP", v.coord, _val_repr(v.payload))
+    return v
+
+
+def case_tread_then_edit(case):
+    spec, cfg, rname, m = case
+    out = []
+    feats = {"read:" + rname, "edit:" + m, "fmt:" + "".join(cfg[0])}
+    if cfg[1]:
+        feats.add("nonzero_default")
+    if not cfg[2]:
+        feats.add("estimated_shape")
+    elif cfg[2] == "filled":
+        feats.add("built_empty_filled_by_reference")
+    cur = core.CUR
+    twin, T, U = mk(spec, 2, cfg), mk(spec, 2, cfg), mk(((), ('1', '0')), 2, cfg)
+    try:
+        _READERS[2][rname](T, U)
+    except (Exception, SystemExit) as ex:
+        cur.path("reader-raised:%s:%s" % (rname, type(ex).__name__))
+    res = []
+    for x in (twin, T):
+        try:
+            res.append(mutate(x, m))
+        except Exception as ex:
+            res.append("EXC:" + type(ex).__name__)
+    cur.transitions += 2
+    cur.validated += 1
+    if res[0] != res[1]:
+        out.append(("read-then-edit", "edit-outcome-depends-on-an-earlier-read", feats, res[0], res[1]))
+    elif res[0] is not False:
+        a, b = _tobserve(twin), _tobserve(T)
+        if a != b:
+            d = [(x[0], x[1], y[1]) for x, y in zip(a, b) if x != y][0]
+            out.append(("read-then-edit", "future-depends-on-an-earlier-read", feats | {"differs:" + d[0]}, d[1][:1500], d[2][:1500]))
+        cur.nt("read-then-edit")
+    cur.states += 1
+    return out
+
+
+def shard_tread_then_edit(acc, shard, nshards, params):
+    quick, = params
+    specs = [s for i, s in enumerate(t2(2, 2)) if i % (9 if quick else 3) == 0]
+    cfgs = [(("C", "C"), 0, False), (("C", "C"), 0, "filled"), (("U", "U"), 7, False)] + \
+        ([] if quick else [(("C", "C"), 0, True), (("U", "C"), 0, False), (("C", "C"), 0.5, False)])
+
+    def gen():
+        for cfg in cfgs:
+            for spec in specs:
+                for r in _READERS[2]:
+                    for m in MUTATIONS:
+                        yield (spec, cfg, r, m)
+    core.drive(acc, "tread_then_edit", case_tread_then_edit, gen(), shard, nshards,
+               family="tensor-read-then-edit[%d trees x %d configurations x %d reads x %d edits]" % (
+                   len(specs), len(cfgs), len(_READERS[2]), len(MUTATIONS)))
+
+
 HLS = [None, {"PE": [(1,)]}, {"PE": [(0,)], "Q": [(1, 1)]}, {"PE": [(1, 0)]}]
 
 
@@ -808,7 +888,7 @@ def shard_render(acc, shard, nshards, params):
     core.drive(acc, "render", case_render, gen(), shard, nshards, family="render[depth=%d]" % depth)
 
 
-CASES = {"read_then_edit": case_read_then_edit, "value_returning": case_value_returning, "read_only": case_read_only, "render": case_render}
+CASES = {"tread_then_edit": case_tread_then_edit, "read_then_edit": case_read_then_edit, "value_returning": case_value_returning, "read_only": case_read_only, "render": case_render}
 
 
 def run(ctx):
@@ -829,6 +909,7 @@ def run(ctx):
         ctx.shards(shard_read, (3, q, 1 if q else 2))
     if sel("read"):
         ctx.shards(shard_read_then_edit, (q,))
+        ctx.shards(shard_tread_then_edit, (q,))
         ctx.bounds["read-then-edit"] = ("1-D fibers (ordered and ordered=False, with and without a declared shape) x %d read-only / "
                                         "value-returning operations x 18 public edits: the edited fiber must be indistinguishable "
                                         "(raw tree, shape / active-range / extreme-coordinate queries, traversals, printing, f + 1) from "
